@@ -87,6 +87,11 @@ func c13Inputs(seed uint64, p c13Params, src string) []toolInput {
 				cls.WriteString("\\p{" + nm + "}")
 			}
 		}
+		if r.chance(1, 4) {
+			// a range that runs into a class escape
+			cls.Reset()
+			cls.WriteString(r.pick([]string{"a-\\pL", "a-\\p{Lu}", "0-9a-\\p{Nd}", "\\pL-z", "^a-\\pN", "a-\\pLz"}))
+		}
 		g := "A <- [" + cls.String() + "]" + r.pick([]string{"", "i", "+", "*"}) + " B\nB <- [a-z" + r.pick([]string{"", "\\p{L}", "\\pN"}) + "] / !.\n"
 		if r.chance(1, 2) {
 			g = "{\npackage gen\n}\n" + g
